@@ -29,7 +29,7 @@ RootId == 1
 (*--------------------------------------------------------------------------*)
 (* State                                                                      *)
 
-NoLim == [known |-> FALSE, wtmax |-> 0, maxfs |-> 0, pcknown |-> FALSE, namemax |-> 0]
+NoLim == [known |-> FALSE, wtmax |-> 0, maxfs |-> 0, rtmax |-> 0, pcknown |-> FALSE, namemax |-> 0]
 
 MkObj(kind, fh, id, parent) ==
   [kind |-> kind, fh |-> fh, id |-> id, data |-> <<>>, target |-> "", tlen |-> 0,
@@ -123,7 +123,7 @@ NewNameExp(s, d, e) ==   \* common part of CREATE / MKDIR / SYMLINK / MKNOD
 
 ExpCall(s, e) ==
   LET o == ObjOf(s, e.fh) IN
-  CASE e.proc = "NULL" -> "OK"
+  CASE e.proc \in {"NULL", "MNULL", "MNT", "UMNT", "UMNTALL", "DUMP", "EXPORT"} -> "OK"   \* MOUNT procedures: no effect
     [] e.proc \in {"GETATTR", "ACCESS", "FSINFO", "PATHCONF"} -> WithH(s, e.fh, "OK")
     [] e.proc \in {"MKNOD", "LINK", "FSSTAT"} -> "ERR"
     [] e.proc = "SETATTR" ->
@@ -336,6 +336,7 @@ ReplyRules(s, e) ==
          IN Fail(n > RLen(want) \/ got # RSlice(want, 0, n), "C02,C12:read-data")
             \o Fail(n = 0 /\ RLen(want) > 0 /\ ~Tight(e), "C02:read-returns-nothing")
             \o Fail(e.rcount # n, "C02:read-count")
+            \o Fail(s.lim.known /\ s.lim.rtmax > 0 /\ n > s.lim.rtmax, "C11,C19:read-reply-larger-than-rtmax")
             \o Fail(e.reof /\ ~e.offsat /\ e.off + n < size, "C02:read-eof-early")
             \o Fail(~e.reof /\ (e.offsat \/ e.off >= size), "C02:read-eof-missing")
     [] e.proc = "WRITE" ->
@@ -362,6 +363,7 @@ ReplyRules(s, e) ==
          \o Fail(e.hasattr /\ e.proc = "SYMLINK" /\ e.rsize # e.tlen, "C02:symlink-size")
     [] e.proc \in {"READDIR", "READDIRPLUS"} ->
          PageRules(s, e, o) \o SessRules(s, e, o) \o FirstPageRules(s, e, o)
+    [] e.proc = "MNT" -> Fail(e.rfh # s.objs[RootId].fh, "C02,C16:mount-returns-other-than-the-root-handle")
     [] e.proc \in {"FSINFO"} ->
          Fail(s.lim.known /\ (e.wtmax # s.lim.wtmax \/ e.maxfs # s.lim.maxfs), "C19:limits-changed")
     [] e.proc \in {"PATHCONF"} -> Fail(s.lim.pcknown /\ e.namemax # s.lim.namemax, "C19:limits-changed")
@@ -420,7 +422,7 @@ NextCore(s, e) ==
                             !.cookies = (o :> ((IF o \in DOMAIN @ THEN @[o] ELSE {})
                                                \cup {e.ents[i].cookie : i \in 1..Len(e.ents)})) @@ @]
             ELSE s4
-      s6 == IF e.proc = "FSINFO" THEN [s5 EXCEPT !.lim.known = TRUE, !.lim.wtmax = e.wtmax, !.lim.maxfs = e.maxfs]
+      s6 == IF e.proc = "FSINFO" THEN [s5 EXCEPT !.lim.known = TRUE, !.lim.wtmax = e.wtmax, !.lim.maxfs = e.maxfs, !.lim.rtmax = e.rtmax]
             ELSE IF e.proc = "PATHCONF" THEN [s5 EXCEPT !.lim.pcknown = TRUE, !.lim.namemax = e.namemax]
             ELSE IF e.proc \in {"WRITE", "COMMIT"} /\ s5.verf = "" THEN [s5 EXCEPT !.verf = e.rverf]
             ELSE s5
